@@ -105,6 +105,9 @@ struct Peer {
     /// ledgers: [dir][ch]
     led: [[Ledger; 3]; 2],
     last_genuine_delivered_ms: [u64; 2],
+    /// last genuine server->client keep-alive put on its way undisturbed: while the client is still answering the
+    /// challenge only a keep-alive lets it progress, however many payloads arrive
+    last_keepalive_forwarded_ms: u64,
     tag: u64,
 }
 
@@ -213,6 +216,7 @@ impl World {
             client_gone_seen: false,
             led: Default::default(),
             last_genuine_delivered_ms: [self.now_ms; 2],
+            last_keepalive_forwarded_ms: 0,
             tag: r.next_u64(),
         })
     }
@@ -1361,7 +1365,15 @@ fn relay_in(w: &mut World, r: &mut Rng, cfg: &RelayCfg, faults_on: bool, to_serv
         return;
     }
     let dirx = if to_server { 0 } else { 1 };
-    let starving = cfg.interference_only && w.now_ms.saturating_sub(w.peers[peer].last_genuine_delivered_ms[dirx]) > (w.timeout_s as u64 * 1000) / 3;
+    let third = (w.timeout_s as u64 * 1000) / 3;
+    // an interference-only relay lets at least one genuine datagram per direction through every timeout/3; for a client
+    // that is still answering the challenge that has to be a keep-alive (payloads do not complete its handshake)
+    let handshake_keepalive = !to_server && !bytes.is_empty() && (bytes[0] & 0xF) == 4 && !w.peers[peer].client.is_connected();
+    let starving = cfg.interference_only
+        && (w.now_ms.saturating_sub(w.peers[peer].last_genuine_delivered_ms[dirx]) > third || (handshake_keepalive && w.now_ms.saturating_sub(w.peers[peer].last_keepalive_forwarded_ms) > third));
+    if handshake_keepalive && starving {
+        w.peers[peer].last_keepalive_forwarded_ms = w.now_ms;
+    }
     if !starving && r.chance(cfg.loss, 100) {
         out.count("relay_dropped");
         *acted = true;
